@@ -30,6 +30,44 @@ CLAIMS = {
              "pandas' (pd.Int64Index(dtype=int)) -- modelled, checked by the bounded tier; Period/Datetime branches not verified",
         technique="contract-based deductive verification: AST->VC generation (pyvc) + z3/cvc5; class invariant + frame + lemmas",
         design="6/C02"),
+    "C03": dict(
+        category="proof",
+        text="The index/cutoff kernels every forecaster goes through are verified: _set_fh of both horizon mixins (which horizon is "
+             "stored / kept / rejected, for every horizon form), _SktimeForecaster.predict (forecast for exactly the requested horizon, "
+             "NotFittedError before fit), _BaseWindowForecaster._predict_fixed_cutoff (one value per step, labels = cutoff + step or the "
+             "requested labels, increasing, for a cutoff anywhere in the remembered series), _update_y_X (cutoff = last label of the "
+             "data passed to update), to_absolute / to_absolute_int (C02), PolynomialTrendForecaster fit/_predict labels.",
+        note="'finite for finite data' is not decided (floating point / statistical fits); whole forecasters and their compositions, "
+             "shift invariance end-to-end and statsmodels adapters are covered by the bounded native tier only (56k cases quick)",
+        technique="contract-based deductive verification: AST->VC generation (pyvc) + z3; abstract _predict/_predict_last_window with ghost trace",
+        design="6/C03"),
+    "C04": dict(
+        category="proof",
+        text="Static sweep over all 158 estimator classes found in the package (including those that cannot be imported here): the real "
+             "__init__ chain is executed with pairwise distinct arguments and must store each under its own name and leave _is_fitted "
+             "False; every apply-type method every concrete class defines or inherits from repo code is executed on a freshly "
+             "constructed object with well-formed arguments and must raise NotFittedError on every path; nested parameters: "
+             "_HeterogenousMetaEstimator._set_params/_get_params (whole list, then by name, then plain/nested keys; unknown names "
+             "rejected) and fit-leaves-parameters for the pipeline; Detrender.update guard.",
+        note="best-effort sweep: classes/methods whose code leaves the verified subset are listed in the evidence as not covered (they "
+             "do not make the run undecided); sklearn BaseEstimator.get_params/set_params/clone are modelled from their documented "
+             "algorithm (assumed); known constructor deviations are listed in known_findings.json; runnable estimators are "
+             "additionally exercised by the bounded native tier",
+        technique="contract-based deductive verification: AST->VC generation (pyvc) + z3; class table + MRO from the AST, path enumeration",
+        design="6/C04"),
+    "C06": dict(
+        category="proof",
+        text="Over the reals: the three kernels (_percentage_error, _relative_error with sign-preserving EPS clamp, _asymmetric_error for "
+             "all four function options) equal their textbook formulas pointwise; laws as lemmas over the kernel contracts (symmetric "
+             "percentage error in [0,2] and swap-invariant, zero for a perfect forecast, scale invariance of ratios when no EPS clamp "
+             "is active); mean/median absolute scaled error: numerator = aggregate of (y_true, y_pred) with the horizon weights, "
+             "denominator = same aggregate of y_train[sp:] vs y_train[:-sp], clamped; all 18 metric classes: __call__ forwards "
+             "(y_true, y_pred) in that order and each constructor option under the function's own keyword.",
+        note="machine arithmetic treated as mathematical (float64 rounding, overflow, NaN not decided); sklearn aggregates "
+             "(mean_absolute_error, median_absolute_error, np.average ...) are external and recorded, not interpreted; the remaining "
+             "metric functions' formulas are covered by the bounded native tier (190k cases quick) only",
+        technique="contract-based deductive verification: AST->VC generation (pyvc) + z3 (nonlinear real arithmetic)",
+        design="6/C06"),
     "C05": dict(
         category="proof",
         text="_sliding_window_transform is verified for all series lengths, window lengths, horizons (gapped or not), numbers of "
